@@ -309,7 +309,7 @@ def verify(env, c, thorough=False):
                     g = I.formula_src(cond, post)
                     p.oblige(f'{fi.qualname}/raises:{et}', 'raises', fi.node.lineno, g, note=cond, func=fi.ident)
                 return
-            post.locals['result'] = result
+            post.locals['__return__' if 'result' in c.params else 'result'] = result
             for name, src in c.ensures:
                 g = I.formula_src(src, post)
                 p.oblige(f'{fi.qualname}/post:{name}', 'post', fi.node.lineno, g, note=src, func=fi.ident)
